@@ -6,7 +6,7 @@
 use crate::common::*;
 use std::collections::BTreeMap;
 
-pub const CORPUS: [&str; 40] = [
+pub const CORPUS: [&str; 44] = [
     "a |> f",
     "a |> f ?? g => h",
     "a => f <| b <= g !> h",
@@ -47,6 +47,12 @@ pub const CORPUS: [&str; 40] = [
     "a, b ~|> f, c ~|> g ~|> h, d ~|> i ~|> j ~|> k, then => hh",
     "a, b ~=> f, c ~=> g ~=> h, d ~=> i ~=> j ~=> k, map => hh",
     "a >@> { b } >^> { c } ?@ { d } ?|>@ { e } ?&!> { f }",
+    // named leading branches + an anonymous later one (only `__r2` is generated), non-dense / descending index requests
+    "let p = a, let q = b, c |> f",
+    "a, b ~|> f, c ~|> g",
+    // user identifiers that look like generated ones
+    "a |> |__v| __v + 1, b ?? |___x| (), let __r9 = c ~|> |____w| ____w",
+    "let z = a, b, let y = c ~=> { let z = z; move |v| v + z } ~|> g, d ~|> h ~|> i ~|> j, then => hh",
 ];
 
 fn units(which: &str) -> Vec<(usize, usize)> {
@@ -54,7 +60,15 @@ fn units(which: &str) -> Vec<(usize, usize)> {
     let mut v = vec![];
     for (i, c) in CORPUS.iter().enumerate() {
         for cfg in 0..8 {
-            if which == "core" && !(i % 4 == 1 && (cfg == 0 || cfg == 1 || cfg == 5) || i == 5 && cfg == 3 || i == 33 && cfg == 4) {
+            if which == "core"
+                && !(i % 4 == 1 && (cfg == 0 || cfg == 1 || cfg == 5)
+                    || i == 5 && cfg == 3
+                    || i == 33 && cfg == 4
+                    || i == 40 && (cfg == 0 || cfg == 1)
+                    || i == 41 && (cfg == 2 || cfg == 3)
+                    || i == 42 && (cfg == 0 || cfg == 4)
+                    || i == 10 && cfg == 2)
+            {
                 continue;
             }
             if matches!(expand_str(c, cfg), Outcome::Ok(_)) {
